@@ -201,7 +201,7 @@ def gen(seed, tier, index):
 
 def prepare_park(plan, z):
     """'park' policy: counting pass without pre-emption (yield points per op), then 1-3 LONG pre-emptions: a task that reaches the chosen yield point (a mutex
-    callback, a file operation) inside one of its calls of the concurrent phase stays off the processor until the other threads have passed n call boundaries -
+    callback, a file operation) inside one of its calls of the concurrent phase stays off the processor until the other threads have completed n calls -
     the other threads complete whole calls inside one call of the parked thread (atomicity violations that need several foreign calls in the window)"""
     import random
     r = random.Random(plan["seed"] ^ 0x9A4C)
@@ -224,13 +224,13 @@ def prepare_park(plan, z):
             # two thirds of the long pre-emptions start at a mutex operation (the windows between two critical sections are where atomicity is lost)
             m = [y for y in ym.get((t, k), []) if 0 < y < n]
             return r.choice(m) if m and r.random() < 0.67 else r.randrange(1, n)
-        for t, k, n in prefer: parks.append([t, k, ypick(t, k, n), r.choice([3, 3, 6] if plan["tasks"][t]["ops"][k].get("park_me") else [6, 7, 8, 9, 9, 12])])
+        for t, k, n in prefer: parks.append([t, k, ypick(t, k, n), r.choice([1, 1, 2] if plan["tasks"][t]["ops"][k].get("park_me") else [2, 2, 3, 3, 4])])      # whole foreign calls inside the window
     elif cands:
         # calls that tear something down are where a window matters most: half of the parks go there
         closing = [c for c in cands if plan["tasks"][c[0]]["ops"][c[1]].get("f") in ("C_CloseSession", "C_Logout", "C_DestroyObject", "C_CloseAllSessions")]
         for _ in range(r.choice([1, 1, 2, 3])):
             t, k, n = r.choice(closing) if closing and r.random() < 0.6 else r.choice(cands)
-            parks.append([t, k, r.randrange(1, n), r.choice([3, 6, 6, 9, 9, 12, 18])])      # three call boundaries per foreign call (op boundary, invoke, return)
+            parks.append([t, k, r.randrange(1, n), r.choice([1, 1, 2, 2, 3, 4, 6])])      # number of foreign calls that complete inside the window
     plan = copy.deepcopy(plan)
     plan["knobs"]["parks"] = sorted(parks); plan["knobs"]["policy"] = "call"; plan["knobs"]["switch_p"] = r.choice([0.0, 0.1, 0.3]); plan["park_policy"] = True
     return plan
